@@ -672,6 +672,8 @@ def rendered_voice_file(ctx):
 def check_C03(ctx):
     q = ctx.quick()
     mc(ctx, "Engine", S("mc", "MC_Engine.cfg"), S("mc", "MC_Engine.tla"), workers=8)
+    # two live generators on one engine: driving one never moves the other (GenIndependent is vacuous with one)
+    mc(ctx, "EngineGens", S("mc", "MC_Engine_gens.cfg"), S("mc", "MC_Engine.tla"), workers=8)
     mc(ctx, "EngineConc", S("mc", "MC_EngineConc.cfg"), S("mc", "MC_EngineConc.tla"), workers=8)
     # progress without locks: under per-thread fairness every started call returns, steps touch one thread's private state only
     mc(ctx, "EngineConcLive", S("mc", "MC_EngineConc_live.cfg"), S("mc", "MC_EngineConc.tla"), workers=8)
